@@ -1,1 +1,4 @@
 // compact-gate build of the C01 suites only: the other properties' hook code is not included.
+
+// no-op counterpart of the C02 hook called by `Batch::push` (suite c02_recorded is not part of this build)
+pub fn c02_note_push(_gate: &crate::protocol::Gate) {}
